@@ -15,7 +15,7 @@ SENT = ["Ends.", "Really?", "Yes!", "(so.)", 'said."']
 # for the ones it does not)
 HAZ = ["-", "+", "*", "#", "##", ">", "1.", "2)", "10.", "-x", "#tag", "1.5", "|", "a|b"]
 INLINE = ["*em*", "**strong**", "`code`", "`a b`", "[link](http://x.y)", "[l k](http://x.y/a_b \"T\")", "![img](i.png)",
-          "<http://auto.link>", "http://bare.url/x", "<b>", "</b>", "<span class=\"x y\">", "~~gone~~", "[^fn]", "[ref]",
+          "<http://auto.link>", "http://bare.url/x", "<https://e.com/o'neil>", "https://e.com/what's-new...x", "<b>", "</b>", "<span class=\"x y\">", "~~gone~~", "[^fn]", "[ref]",
           "\\*lit\\*", "\"quoted\"", "it's", "wait...", "a_b_c", "2*3*4", "&amp;", "x<y"]
 TAGS = ["{% t %}", "{% /t %}", "{{ v }}", "{# c #}", "<!-- h -->", "{% a x=\"1 2\" %}", "{% t %}{% /t %}", "<!-- a --><!-- /a -->"]
 HAZ_UNESCAPED = ["---", "===", "```", "~~~", "***", "___", ">q", "- - -", "----"]     # known finding C01-escape-hazards
@@ -100,11 +100,12 @@ def block(rnd, depth=0, with_tags=False, in_list=False):
         f = rnd.choice(("```", "````", "~~~"))
         lang = rnd.choice(("", "py", "js {x=1}"))
         code = "\n".join(rnd.choice(["x = 1", "  indented", "", "``` not a fence", "~~~", "> quoted", "- item", "a  b", "\ttab",
-                                      "{% tag %}", "\"q\" ... 'z'", "```"]) for _ in range(rnd.choice((1, 2, 4))))
+                                      "{% tag %}", "\"q\" ... 'z'", "```", " ```", "   ````", "  ~~~~", "it's \"q\""])
+                         for _ in range(rnd.choice((1, 2, 4))))
         if f[0] == "`" and re.search(r"^ {0,3}`{%d,}" % len(f), code, re.M):
-            f = "`" * 6
+            f = "`" * 7
         if f[0] == "~" and re.search(r"^ {0,3}~{3,}", code, re.M):
-            f = "~" * 6
+            f = "~" * 7
         return "%s%s\n%s\n%s" % (f, lang, code, f)
     if k == "indented":
         return "    code line\n    more  code"
@@ -131,8 +132,10 @@ def document(rnd, with_tags=False, nblocks=None, hazards=True):
     n = nblocks or rnd.choice((1, 2, 3, 4))
     rnd.ordered_delim = rnd.choice(".)")
     blocks = [block(rnd, 0, with_tags) for _ in range(n)]
-    if rnd.random() < 0.1:
-        blocks.insert(0, "    code line\n    more  code")
+    if rnd.random() < 0.15:
+        # an indented code block (no fence of its own) right after a heading, possibly holding fence-like lines
+        blocks.insert(0, "    code line\n    " + rnd.choice(["more  code", " ```", "   ````", "```", "  ~~~", "it's"]))
+        blocks.insert(0, "# Head")
     if blocks[0].startswith("---"):
         blocks[0] = "***"          # a leading '---' line would be (unclosed) frontmatter
     # footnote definitions only at the end of the document (Marko's footnote extension absorbs what follows)
